@@ -369,6 +369,8 @@ def run(ctx):
              "weights with the extraction mask, forward all kernel results; aliases", 20)
     FAC = {"polar": "PolarHistogram", "azimuthal": "AzimuthalHistogram", "radial": "RadialHistogram", "spherical": "SphericalHistogram",
            "spherical_surface": "SphericalSurfaceHistogram", "cylindrical": "CylindricalHistogram", "cylindrical_surface": "CylindricalSurfaceHistogram"}
+    wiring.lossy_preallocation(ctx, "C15.c", [sh.functions[f] for f in FAC if f in sh.functions]
+                               + [sh.functions[f] for f in ("extract_transformed_data",) if f in sh.functions], "facades:columns-promoted")
     for fname, kname in FAC.items():
         fi = sh.functions.get(fname)
         if fi is None:
